@@ -71,6 +71,8 @@ SORTED_OUT = "forall(lambda x, y: implies(0 <= x and x < y and y < len(out), out
 SORTED_A = "forall(lambda x, y: implies(0 <= x and x < y and y < len(a.seq), a.seq[x][0] < a.seq[y][0]))"
 SORTED_B = SORTED_A.replace("a.", "b.")
 
+# termination of the merge loops: every iteration consumes an element of a or of b
+MERGE_MEASURE = "(len(a.seq) - " + DONE_A + ") + (len(b.seq) - " + DONE_B + ")"
 MERGE_TYPES = {"a_coord": "opt[int]", "b_coord": "opt[int]", "a_payload": "opt[Payload|Fiber]", "b_payload": "opt[Payload|Fiber]"}
 
 AND_SOUND = ("forall(lambda k: exists(lambda i, j: 0 <= i and i < %s and 0 <= j and j < %s and a.seq[i][0] == out[k][0] and b.seq[j][0] == out[k][0]"
@@ -86,7 +88,7 @@ contract(F, "__and__.and_iterator.__iter__", types=dict(self="and_iterator"),
              SORTED_OUT.replace("a.", "final(a)."),
              (AND_SOUND % ("len(a.seq)", "len(b.seq)")).replace("a.seq", "final(a).seq").replace("b.seq", "final(b).seq"),
              (AND_COMPLETE % "True").replace("a.seq", "final(a).seq").replace("b.seq", "final(b).seq")]},
-         loops={0: dict(types=MERGE_TYPES, invariant=[
+         loops={0: dict(types=MERGE_TYPES, decreases=MERGE_MEASURE, invariant=[
              "not is_collecting", "not a_traced", "not b_traced",
              SORTED_A, SORTED_B, A_HEAD, B_HEAD, SORTED_OUT,
              "forall(lambda k: implies(not isnone(a_coord), out[k][0] < val(a_coord)) and implies(not isnone(b_coord), out[k][0] < val(b_coord)), 0, len(out))",
@@ -153,9 +155,9 @@ contract(F, "__or__.or_iterator.__iter__", types=dict(self="or_iterator"),
              fin(SORTED_OUT)] + [fin(x) for x in or_sound("len(a.seq)", "len(b.seq)")] + [DIST_A, DIST_B] + [
              fin("forall(lambda i: exists(lambda k: 0 <= k and k < len(out) and out[k][0] == a.seq[i][0]), 0, len(a.seq))"),
              fin("forall(lambda j: exists(lambda k: 0 <= k and k < len(out) and out[k][0] == b.seq[j][0]), 0, len(b.seq))")]},
-         loops={0: dict(types=MERGE_TYPES, invariant=OR_INV),
-                1: dict(types=MERGE_TYPES, invariant=OR_INV + ["isnone(a_coord) or isnone(b_coord)"]),
-                2: dict(types=MERGE_TYPES, invariant=OR_INV + ["isnone(a_coord)"])},
+         loops={0: dict(types=MERGE_TYPES, decreases=MERGE_MEASURE, invariant=OR_INV),
+                1: dict(types=MERGE_TYPES, decreases=MERGE_MEASURE, invariant=OR_INV + ["isnone(a_coord) or isnone(b_coord)"]),
+                2: dict(types=MERGE_TYPES, decreases=MERGE_MEASURE, invariant=OR_INV + ["isnone(a_coord)"])},
          note="leaf ranks: the absent side is a fresh box holding that fiber's default (interior ranks: C02/C10 bounded parts)")
 
 # ---- xor: like union without the matching coordinates
@@ -172,9 +174,9 @@ contract(F, "__xor__.xor_iterator.__iter__", types=dict(self="xor_iterator"),
          ensures={"C04 C10": [fin(SORTED_OUT)] + [fin(x) for x in or_sound("len(a.seq)", "len(b.seq)", with_ab=False)] + [DIST_A, DIST_B] + [
              fin("forall(lambda i: exists(lambda j: 0 <= j and j < len(b.seq) and b.seq[j][0] == a.seq[i][0]) or exists(lambda k: 0 <= k and k < len(out) and out[k][0] == a.seq[i][0]), 0, len(a.seq))"),
              fin("forall(lambda j: exists(lambda i: 0 <= i and i < len(a.seq) and a.seq[i][0] == b.seq[j][0]) or exists(lambda k: 0 <= k and k < len(out) and out[k][0] == b.seq[j][0]), 0, len(b.seq))")]},
-         loops={0: dict(types=MERGE_TYPES, invariant=XOR_INV),
-                1: dict(types=MERGE_TYPES, invariant=XOR_INV + ["isnone(a_coord) or isnone(b_coord)"]),
-                2: dict(types=MERGE_TYPES, invariant=XOR_INV + ["isnone(a_coord)"])})
+         loops={0: dict(types=MERGE_TYPES, decreases=MERGE_MEASURE, invariant=XOR_INV),
+                1: dict(types=MERGE_TYPES, decreases=MERGE_MEASURE, invariant=XOR_INV + ["isnone(a_coord) or isnone(b_coord)"]),
+                2: dict(types=MERGE_TYPES, decreases=MERGE_MEASURE, invariant=XOR_INV + ["isnone(a_coord)"])})
 
 # ---- difference: a's elements whose coordinate b does not present, with a's own payloads
 SUB_IN_A = "exists(lambda i: 0 <= i and i < %s and a.seq[i][0] == out[k][0] and out[k][1] is a.seq[i][1])"
@@ -190,8 +192,8 @@ contract(F, "__sub__.sub_iterator.__iter__", types=dict(self="sub_iterator"),
                               fin("forall(lambda k: " + SUB_IN_A % "len(a.seq)" + ", 0, len(out))"),
                               fin("forall(lambda k: " + NOT_IN_B + ", 0, len(out))"),
                               fin("forall(lambda i: exists(lambda j: 0 <= j and j < len(b.seq) and b.seq[j][0] == a.seq[i][0]) or exists(lambda k: 0 <= k and k < len(out) and out[k][0] == a.seq[i][0]), 0, len(a.seq))")]},
-         loops={0: dict(types=MERGE_TYPES, invariant=SUB_INV),
-                1: dict(types=MERGE_TYPES, invariant=SUB_INV + ["isnone(a_coord) or isnone(b_coord)"])})
+         loops={0: dict(types=MERGE_TYPES, decreases=MERGE_MEASURE, invariant=SUB_INV),
+                1: dict(types=MERGE_TYPES, decreases=MERGE_MEASURE, invariant=SUB_INV + ["isnone(a_coord) or isnone(b_coord)"])})
 
 # ---------------------------------------------------------------- populate (C05, C01, C02): leaf rank, collection off
 A = "self.a_fiber"
